@@ -227,6 +227,19 @@ def o_frame(root, pre, op, res, extra):
             if gone != want_gone:
                 out.append(('frame:dropmany-removed-other-items', f'drop_many({op["args"][0]["v"]}) on {n_} items removed {len(gone)} item(s), '
                             f'{len(gone ^ want_gone)} of them not the designated ones / designated ones left behind'))
+    # remove / discard through a string view: the items that go are items OF THAT VIEW carrying the value (the first one /
+    # all of them) - a same-named element of the sibling view (`#trip` next to `^trip`) is somebody else's
+    if kind in ('view-remove', 'view-discard') and op.get('attr') in ('tags', 'links') and pre.item_texts is not None \
+            and res[0] == 'ok' and '_tags_links' in pre.item_texts and isinstance(op['args'][0].get('v'), str):
+        before_items = pre.item_texts['_tags_links']
+        lexeme = ('#' if op['attr'] == 'tags' else '^') + op['args'][0]['v']
+        matching = [i for i, t in before_items if t == lexeme]
+        want_gone = set(matching) if op['m'] == 'discard' else set(matching[:1])
+        now_ids = {id(x) for x in pm.__dict__['_tags_links'].items}
+        gone = {i for i, _ in before_items if i not in now_ids}
+        if gone != want_gone:
+            out.append((f'frame:view-{op["m"]}-hit-other-items', f'{op["attr"]}.{op["m"]}({op["args"][0]["v"]!r}) on {[t for _, t in before_items]} removed '
+                        f'{[t for i, t in before_items if i in gone]}, expected {[t for i, t in before_items if i in want_gone]}'))
     # a key designates the FIRST meta item carrying it: that one, and no other, is removed / replaced / updated
     if kind in ('meta-delkey', 'meta-popkey', 'meta-setkey') and pre.meta_items is not None and hasattr(pm, 'raw_meta'):
         key = op['idx'] if 'idx' in op else op['args'][0]['v']
@@ -434,7 +447,16 @@ def o_nonedit(root, pre, op, res, extra):
 def o_census(root, pre, op, res, extra):
     """C14: ownership census after every call (at most one owner, claimed flag <=> owned, adjacency)."""
     import commentsx
-    return [('C14:' + s_, d) for s_, d in commentsx.check_census(root)]
+    out = [('C14:' + s_, d) for s_, d in commentsx.check_census(root)]
+    # a call that NAMES the comments it is about (a list / tuple, the empty one included) changes the ownership of those only
+    if op and op.get('kind') in ('claim-inter', 'unclaim-inter') and res and res[0] == 'ok' and op.get('args') \
+            and isinstance(op['args'][0], dict) and op['args'][0].get('t') == 'list' and all(x.get('t') == 'tok-at' for x in op['args'][0]['items']):
+        named = {pre.tok_ids[x['i']] for x in op['args'][0]['items'] if x['i'] < len(pre.tok_ids)}
+        now = {id(t): bool(t.claimed) for t in root.token_store if isinstance(t, models.BlockComment)}
+        other = [i for i, c in pre.claimed if i not in named and i in now and now[i] != c]
+        if other:
+            out.append((f'C14:selection-exceeded:{op["m"]}', f'{op["m"]} with {len(named)} named comment(s) changed the ownership of {len(other)} comment(s) it did not name'))
+    return out
 
 
 def o_fresh(root, pre, op, res, extra):
